@@ -27,7 +27,8 @@ META = {
         "BitVec truncate/signExtend for all positive widths; XdslProofs.C15FloatLogic proves that the branching "
         "of minimumf/maximumf/cmpf (hand model XdslModel/ArithFloatLogic.lean over abstract IEEE primitives, "
         "compared with the real functions on a float corpus) implements IEEE-754-2019 minimum/maximum and "
-        "MLIR's 16-entry cmpf table. "
+        "MLIR's 16-entry cmpf table, and that addf/subf/mulf return the binary64 result rounded once to the "
+        "result type (packing primitives as parameters under RoundLaws). "
         "XdslProofs.C15Sem proves that this reference interpreter executes the same definitions: every "
         "value Sem.intBin returns for one of the 11 translated ops is the bit pattern of the translated "
         "kernel's result, and Sem.cmpi is the predicate table of the cmpi theorems."
@@ -36,23 +37,24 @@ META = {
     "level_note": (
         "Trusted: Lean kernel; the translator harness/translate/py2lean.py (whitelisted AST fragment, "
         "cross-checked by correspondence); the statement of MLIR semantics as BitVec operations; Python "
-        "float arithmetic vs struct-rounded reference for f32/f64 (no theorem about IEEE operations "
+        "float arithmetic vs struct-rounded reference for f32/f64, integer-arithmetic rounding reference for f16/bf16, Lean native Float32/Float for f32/f64 (no theorem about IEEE operations "
         "themselves: C15FloatLogic takes isnan/==/</<=/copysign as parameters satisfying the laws FloatLaws, "
-        "and its model of the three float kernels is hand-written, tied to the source by correspondence only); interpreter dispatch/registration machinery is exercised, not modelled. Known "
+        "and its model of the six float kernels is hand-written, tied to the source by correspondence only); interpreter dispatch/registration machinery is exercised, not modelled. Known "
         "findings (cannot be repaired without editing pinned tests) are listed in known_findings.json."
     ),
     "rule": (
         "op-level: every supported integer op × every operand pair in the signless range for widths 1..4 "
         "(exhaustive) and boundary+random operands for widths 8,16,32,64 and index; cmpi × 10 predicates; "
         "casts over width pairs; float ops over a bit-pattern corpus (±0, ±inf, NaNs, subnormals, f32 "
-        "rounding boundary cases). Non-trivial = the result wraps, an operand has its top bit set, or the "
+        "rounding boundary cases; addf/subf/mulf also on f16 and bf16 patterns against an integer-arithmetic "
+        "rounding reference, and on f32/f64 against Lean's native Float32/Float through the `sem` driver). Non-trivial = the result wraps, an operand has its top bit set, or the "
         "operand is given as a non-canonical (unsigned) representative; distinct = distinct (op, width, "
         "operands). Inputs on which MLIR gives poison/undefined are generated but excluded from the oracle."
     ),
     "trusted_base": [
         "translator harness/translate/py2lean.py + generate.py (regenerated and cross-checked every run)",
         "reference semantics stated as BitVec operations in XdslProofs/C15.lean and C15Casts.lean",
-        "hand model XdslModel/ArithFloatLogic.lean of run_minimumf/run_maximumf/run_cmpf + the IEEE laws FloatLaws (assumed of the machine's binary64)",
+        "hand model XdslModel/ArithFloatLogic.lean of run_minimumf/run_maximumf/run_cmpf/run_addf/run_subf/run_mulf + the IEEE laws FloatLaws and packing laws RoundLaws (assumed of the machine's binary64 and of struct packing)",
     ],
     "budget": {"quick": 150, "thorough": 1200},
 }
@@ -406,8 +408,8 @@ def run_floats(ctx: core.Ctx, impl: Impl) -> None:
                     if math.isnan(a) or math.isnan(b) or a == 0 or b == 0 or math.isinf(a) or math.isinf(b) or exp != f(a, b):
                         ctx.nt(("f", name, ty, f64_bits(a), f64_bits(b)))
                     if st != "ok" or not isinstance(got, float) or not same_float(got, exp):
-                        if st == "ok" and isinstance(got, float) and ty == "f32" and same_float(got, f(a, b)):
-                            sig = f"{name}@f32: computed in double precision, result not rounded to f32"
+                        if st == "ok" and isinstance(got, float) and ty != "f64" and same_float(got, f(a, b)):
+                            sig = f"{name}@{ty}: computed in double precision, result not rounded to {ty}"
                         else:
                             sig = f"{name}@{ty}: wrong IEEE-754 result"
                         ctx.fail(f"xdsl.interpreters.arith.ArithFunctions.run_{name}", sig,
@@ -445,6 +447,133 @@ def run_floats(ctx: core.Ctx, impl: Impl) -> None:
 
 
 # ---------------------------------------------------------------------------------------------
+# floats, narrow types (f16, bf16) and the f32/f64 arithmetic against Lean's native Float32/Float
+# ---------------------------------------------------------------------------------------------
+
+NARROW = {"f16": (5, 10), "bf16": (8, 7)}  # type -> (exponent bits, fraction bits)
+
+
+def decode_narrow(bits: int, e: int, m: int) -> float:
+    """value of an IEEE-style bit pattern with e exponent and m fraction bits (exact as a double)"""
+    sign = -1.0 if bits >> (e + m) else 1.0
+    ex, fr, bias = (bits >> m) & ((1 << e) - 1), bits & ((1 << m) - 1), (1 << (e - 1)) - 1
+    if ex == (1 << e) - 1:
+        return math.nan if fr else sign * math.inf
+    if ex == 0:
+        return sign * math.ldexp(fr, 1 - bias - m)
+    return sign * math.ldexp((1 << m) | fr, ex - bias - m)
+
+
+def round_narrow(x: float, e: int, m: int) -> float:
+    """the double x rounded to the nearest value of the (e, m) format, ties to even, overflow to
+    infinity; integer arithmetic only (independent of struct and of xDSL's packing code)"""
+    if math.isnan(x) or math.isinf(x) or x == 0:
+        return x
+    bias = (1 << (e - 1)) - 1
+    mant, ex = math.frexp(abs(x))             # abs(x) = mant * 2**ex, 0.5 <= mant < 1
+    sig = int(math.ldexp(mant, 53))           # exact: 53-bit integer, abs(x) = sig * 2**(ex-53)
+    if ex - 1 > bias:
+        return math.copysign(math.inf, x)
+    ulp_exp = max(ex - 1, 1 - bias) - m       # exponent of the unit in the last place of the target
+    shift = ulp_exp - (ex - 53)
+    if shift <= 0:
+        q = sig << -shift
+    else:
+        q, rem, half = sig >> shift, sig & ((1 << shift) - 1), 1 << (shift - 1)
+        if rem > half or (rem == half and q & 1):
+            q += 1
+    if q >= 1 << (bias + 1 - ulp_exp):        # q * 2**ulp_exp >= 2**(bias+1): beyond the largest finite value
+        return math.copysign(math.inf, x)
+    return math.copysign(math.ldexp(q, ulp_exp), x)
+
+
+def narrow_corpus(e: int, m: int) -> list[int]:
+    top = 1 << (e + m)
+    emax, one = ((1 << e) - 2) << m, ((1 << (e - 1)) - 1) << m
+    frac = (1 << m) - 1
+    pats = [0, 1, frac, 1 << m, one, one | 1, one | frac, one - 1, emax | frac, emax, ((1 << e) - 1) << m,
+            (((1 << e) - 1) << m) | (1 << (m - 1)), one + ((m + 1) << m), (one + ((m + 1) << m)) | 1,
+            one + ((m + 2) << m), one - ((m + 1) << m), one - ((m + 2) << m) | 1, (one >> 1) & ~frac | 3]
+    return list(dict.fromkeys(pats + [p | top for p in pats[:12]]))
+
+
+def run_floats_narrow(ctx: core.Ctx, impl: Impl) -> None:
+    """addf/subf/mulf/minimumf/maximumf on f16 and bf16: the result must be the exact result rounded
+    once to the result type (the reference rounds the double result with integer arithmetic; the
+    double result of +,-,* on operands of <= 11 significant bits rounds innocuously)."""
+    arith = impl.arith
+    fops = {"addf": (arith.AddfOp, lambda a, b: a + b), "subf": (arith.SubfOp, lambda a, b: a - b),
+            "mulf": (arith.MulfOp, lambda a, b: a * b)}
+    for ty, (e, m) in NARROW.items():
+        pats = narrow_corpus(e, m)
+        for _ in range(8 if ctx.tier == "quick" else 60):
+            pats.append(ctx.rng.getrandbits(1 + e + m))
+        vals = [decode_narrow(p, e, m) for p in pats]
+        for name, (cls, f) in fops.items():
+            op = cls(impl.val(ty, 0), impl.val(ty, 1))
+            if impl.run(op, (1.0, 1.0))[0] == "unsupported":
+                impl.unsupported.add(name); ctx.count(f"unsupported.{name}")
+                continue
+            for a in vals:
+                for b in vals:
+                    st, got = impl.run(op, (a, b))
+                    ctx.ev(); ctx.count(f"float.{name}.{ty}")
+                    raw = f(a, b)
+                    exp = round_narrow(raw, e, m)
+                    if math.isnan(raw) or math.isinf(raw) or raw == 0 or not same_float(exp, raw):
+                        ctx.nt(("f", name, ty, f64_bits(a), f64_bits(b)))
+                    if st != "ok" or not isinstance(got, float) or not same_float(got, exp):
+                        if st == "ok" and isinstance(got, float) and same_float(got, raw):
+                            sig = f"{name}@{ty}: computed in double precision, result not rounded to {ty}"
+                        else:
+                            sig = f"{name}@{ty}: wrong IEEE-754 result"
+                        ctx.fail(f"xdsl.interpreters.arith.ArithFunctions.run_{name}", sig,
+                                 {"op": name, "type": ty, "a_bits": hex(f64_bits(a)), "b_bits": hex(f64_bits(b))},
+                                 f"arith.{name} : {ty} on ({a!r}, {b!r}) gave {got!r}; IEEE-754 {ty} result is {exp!r}",
+                                 repr(got), repr(exp))
+
+
+def run_float_sem(ctx: core.Ctx, impl: Impl) -> None:
+    """addf/subf/mulf/minimumf/maximumf on f32 and f64, real interpreter vs the Lean reference semantics
+    (driver model `sem`: Lean's native Float32/Float, a stack independent of CPython and struct)."""
+    from vp import miniir, proggen
+
+    names = [n for n in ("addf", "subf", "mulf", "minimumf", "maximumf") if n not in impl.unsupported]
+    lines: list[str] = []
+    expect: list[tuple[str, str, float, float, str]] = []
+    for ty, corpus, frombits in (("f32", F32_CORPUS, bits_f32), ("f64", F64_CORPUS, bits_f64)):
+        vals = [frombits(b) for b in corpus]
+        for _ in range(6 if ctx.tier == "quick" else 40):
+            vals.append(frombits(ctx.rng.getrandbits(32 if ty == "f32" else 64)))
+        for name in names:
+            text = (f"builtin.module {{\n  func.func @main(%a : {ty}, %b : {ty}) -> {ty} {{\n"
+                    f"    %r = arith.{name} %a, %b : {ty}\n    func.return %r : {ty}\n  }}\n}}\n")
+            m = proggen.parse_module(text)
+            lines.append("prog " + miniir.serialize(m))
+            expect.append((name, ty, 0.0, 0.0, "ok"))
+            for a in vals:
+                for b in vals:
+                    lines.append(f"run 1000 main {miniir.arg_text(ty, a)} {miniir.arg_text(ty, b)}")
+                    expect.append((name, ty, a, b, miniir.run_real(m, "main", [a, b])))
+                    ctx.ev(); ctx.count(f"floatsem.{name}.{ty}")
+    outs = ctx.model("sem", lines)
+    for (name, ty, a, b, real), out in zip(expect, outs):
+        if real == "ok":
+            if out != "ok":
+                raise core.InfraError("MiniIR serialisation of a one-op float program rejected by the Lean parser")
+            continue
+        if real != out:
+            unrounded = "!unrounded" in real
+            sig = (f"{name}@{ty}: computed in double precision, result not rounded to {ty}" if unrounded
+                   else f"{name}@{ty}: wrong IEEE-754 result")
+            ctx.fail(f"xdsl.interpreters.arith.ArithFunctions.run_{name}", sig,
+                     {"op": name, "type": ty, "a_bits": hex(f64_bits(a)), "b_bits": hex(f64_bits(b))},
+                     f"arith.{name} : {ty} on ({a!r}, {b!r}): the interpreter and the Lean reference semantics (native {ty}) differ",
+                     real, out)
+            break
+
+
+# ---------------------------------------------------------------------------------------------
 # float decision logic: hand model XdslModel/ArithFloatLogic.lean (driver model arith_float_logic)
 # ---------------------------------------------------------------------------------------------
 
@@ -454,8 +583,9 @@ LOGIC_CORPUS = [0x0, 0x8000000000000000, 0x3FF0000000000000, 0xBFF0000000000000,
 
 
 def run_float_logic(ctx: core.Ctx, impl: Impl) -> None:
-    """minimumf / maximumf / cmpf of the real interpreter vs. the hand model whose branching
-    XdslProofs.C15FloatLogic proves correct (NaN / both-zero / ordered arm and the result)."""
+    """minimumf / maximumf / cmpf / addf / subf / mulf of the real interpreter vs. the hand model whose
+    branching XdslProofs.C15FloatLogic proves correct (NaN / both-zero / ordered arm, resp. the arm of the
+    rounding to the result type, and the result)."""
     arith = impl.arith
     bits = list(LOGIC_CORPUS)
     if ctx.tier != "quick":
@@ -506,6 +636,26 @@ def run_float_logic(ctx: core.Ctx, impl: Impl) -> None:
                 ctx.ev(); ctx.count("floatlogic.cmpf")
             if arm != "order" or a == b:
                 ctx.nt(("fl", ba, bb))
+    # addf/subf/mulf: hand model of _round_to_float_type (arm: wide | rounded | overflow) with Lean's
+    # native Float -> Float32 -> Float conversion as the re-packing primitive
+    aops = {"addf": (arith.AddfOp, lambda a, b: a + b), "subf": (arith.SubfOp, lambda a, b: a - b),
+            "mulf": (arith.MulfOp, lambda a, b: a * b)}
+    avals = [(b, x) for b, x in vals if is_f32(x)]
+    for ty in ("f32", "f64"):
+        for kind, (cls, f) in aops.items():
+            if kind in impl.unsupported:
+                continue
+            op = cls(impl.val(ty, 0), impl.val(ty, 1))
+            for ba, a in (avals if ty == "f32" else vals):
+                for bb, b in (avals if ty == "f32" else vals):
+                    raw = f(a, b)
+                    rarm = "wide" if ty == "f64" else "overflow" if (not math.isinf(raw) and math.isinf(round32(raw))) else "rounded"
+                    st, got = impl.run(op, (a, b))
+                    lines.append(f"{kind} {ty} {ba} {bb}")
+                    obs.append(show(st, got, rarm))
+                    ctx.ev(); ctx.count(f"floatlogic.{kind}")
+                    if rarm == "overflow" or (ty == "f32" and not math.isnan(raw) and round32(raw) != raw):
+                        ctx.nt(("fa", kind, ty, ba, bb))
     outs = ctx.model("arith_float_logic", lines)
     for l, o, e in zip(lines, outs, obs):
         if o != e:
@@ -634,6 +784,15 @@ def run(ctx: core.Ctx) -> None:
             ctx.count("floatlogic.driver_unavailable")
         else:
             raise
+    # added after the repair of run_addf/run_subf/run_mulf (results are rounded to the result type)
+    run_floats_narrow(ctx, impl)
+    try:
+        run_float_sem(ctx, impl)
+    except core.InfraError:
+        if any(f.kind == "broken-proof" for f in ctx.failures):
+            ctx.count("floatsem.driver_unavailable")
+        else:
+            raise
 
 
 def replay(ctx: core.Ctx, body: dict) -> int:
@@ -662,5 +821,15 @@ def replay(ctx: core.Ctx, body: dict) -> int:
         print(f"implementation: {st} {got}; MLIR bit pattern: {exp}")
         ok = st == "ok" and exp is not None and got % (1 << w) == exp and -(1 << (w - 1)) <= got < (1 << w)
         return 0 if ok else 1
+    if name in ("addf", "subf", "mulf") and case.get("type") in ("f16", "bf16", "f32", "f64"):
+        ty = case["type"]
+        a = bits_f64(int(case["a_bits"], 16)) if "a_bits" in case else float(case["a"])
+        b = bits_f64(int(case["b_bits"], 16)) if "b_bits" in case else float(case["b"])
+        raw = {"addf": a + b, "subf": a - b, "mulf": a * b}[name]
+        exp = raw if ty == "f64" else round32(raw) if ty == "f32" else round_narrow(raw, *NARROW[ty])
+        cls = {"addf": impl.arith.AddfOp, "subf": impl.arith.SubfOp, "mulf": impl.arith.MulfOp}[name]
+        st, got = impl.run(cls(impl.val(ty, 0), impl.val(ty, 1)), (a, b))
+        print(f"implementation: {st} {got!r}; IEEE-754 {ty} result: {exp!r}")
+        return 0 if st == "ok" and isinstance(got, float) and same_float(got, exp) else 1
     print("replay of this case kind: re-run ./check C15; case =", case)
     return 0
